@@ -79,7 +79,7 @@ func (c *c10World) clientFiles() map[string][]byte {
 }
 
 func TestC10SyncReplies(t *testing.T) {
-	ev.Rule("C10: per case a server state (window week 0..2, reports of the device at drawn slots incl. window edges 0 and 4031 and banned slots, 0-4 GCA-signed authorized servers with locations of length 0..255 and banned flags, or a GCA-signed migration order with 0-3 servers signed by the new GCA) and a client with the same device key; oracle for the genuine reply: the client's parse equals the snapshot (offset, bit i <=> record in slot i, migration target, server list) and the reference decoder agrees; unknown id => refusal. Then mutations of the captured reply served by a fake endpoint: single-bit flips (sampled per region; exhaustive in the thorough tier), truncation, extension, re-signing by other keys, timestamp shifts re-signed with the server's key (tolerance +-5 s around 24 h), a genuine reply for another device, entry or migration signatures replaced; oracle: rejected unless the reference acceptance rule accepts, and a full sync round against a rejected reply leaves GCA key, short id, server map and the client files unchanged; non-trivial = genuine reply with an edge bit, a server entry or a migration, and every tampered reply (distinct by mutation kind and layout region)")
+	ev.Rule("C10: per case a server state (window week 0..2, reports of the device at drawn slots incl. window edges 0 and 4031 and banned slots, 0-4 GCA-signed authorized servers with locations of length 0..255 and banned flags (in half of the cases one of them is the contacted server itself), or a GCA-signed migration order with 0-3 servers signed by the new GCA) and a client with the same device key; oracle for the genuine reply: the client's parse equals the snapshot (offset, bit i <=> record in slot i, migration target, server list) and the reference decoder agrees; unknown id => refusal. Then mutations of the captured reply served by a fake endpoint: single-bit flips (sampled per region; exhaustive in the thorough tier), truncation, extension, re-signing by other keys, timestamp shifts re-signed with the server's key (tolerance +-5 s around 24 h), a genuine reply for another device, entry or migration signatures replaced; oracle: rejected unless the reference acceptance rule accepts, and a full sync round against a rejected reply leaves GCA key, short id, server map and the client files unchanged; non-trivial = genuine reply with an edge bit, a server entry or a migration, and every tampered reply (distinct by mutation kind and layout region)")
 	rapid.Check(t, func(t *rapid.T) {
 		k := rapid.IntRange(0, 2).Draw(t, "week")
 		w := buildWorld(t, "C10", k, 2, false)
@@ -122,6 +122,11 @@ func TestC10SyncReplies(t *testing.T) {
 			for i, n := 0, rapid.IntRange(0, 4).Draw(t, "nServers"); i < n; i++ {
 				as := ref.AuthServer{PublicKey: keyFor(fmt.Sprintf("c10-peer-%d", i)).Pub, Banned: rapid.Bool().Draw(t, "banned"), Location: drawLocation(t, 255, "loc"),
 					HttpPort: drawU16(t, "hp"), TcpPort: drawU16(t, "tp"), UdpPort: drawU16(t, "up")}
+				if i == 0 && rapid.Bool().Draw(t, "listsItself") {
+					// the list of a server normally holds the server's own entry
+					// (authorizations are forwarded to the servers they name)
+					as.PublicKey = w.srvKey.Pub
+				}
 				as.Sig = ref.Sign(s.gca, as.SigningBytes())
 				s.S.S.VerifInstallAuthorizedServer(world.ToGlowServer(as))
 				wantServers = append(wantServers, as)
